@@ -22,15 +22,22 @@ func (l *Lab) buildAction(r Ref, a *ActionSpec) *workflow.Action {
 		act.Timeout = 5 * time.Second
 	}
 	check := r.Group != ""
+	// the plugin NAME that carries the pointer types depends on SwapTypes (see newRegistry)
+	pName := a.Ptr != l.sc.SwapTypes
 	switch {
-	case check && a.Ptr:
-		act.Plugin, act.Req = PlugChkP, &ReqP{Tag: tag, Pad: "pad"}
+	case check && pName:
+		act.Plugin = PlugChkP
 	case check:
-		act.Plugin, act.Req = PlugChk, ReqV{Tag: tag, Pad: "pad"}
-	case a.Ptr:
-		act.Plugin, act.Req = PlugActP, &ReqP{Tag: tag, Pad: "pad"}
+		act.Plugin = PlugChk
+	case pName:
+		act.Plugin = PlugActP
 	default:
-		act.Plugin, act.Req = PlugAct, ReqV{Tag: tag, Pad: "pad"}
+		act.Plugin = PlugAct
+	}
+	if a.Ptr {
+		act.Req = &ReqP{Tag: tag, Pad: "pad"}
+	} else {
+		act.Req = ReqV{Tag: tag, Pad: "pad"}
 	}
 	return act
 }
@@ -176,6 +183,8 @@ type RunResult struct {
 	Plans   []*PlanRun
 	Notes   []string
 	Stalled bool
+	// NewHung: coercion.New itself never returned (stall rule); Stalled is set too.
+	NewHung bool
 	// Quiescent is true when at the end nothing was in flight and the log was silent during the grace window.
 	Quiescent bool
 	NewErr    error
@@ -212,7 +221,7 @@ func Run(sc *Scenario, o RunOpts) *RunResult {
 
 	reg := o.Reg
 	if reg == nil {
-		reg = l.newRegistry()
+		reg = l.newRegistry(sc.SwapTypes)
 	} else {
 		// plugins registered by an earlier lab instance must talk to this lab
 		for p := range reg.Plugins() {
@@ -246,11 +255,45 @@ func Run(sc *Scenario, o RunOpts) *RunResult {
 	go l.controller(stopCtl)
 	defer close(stopCtl)
 
-	ws, err := coercion.New(ctx, reg, rec, o.WSOptions...)
-	if err != nil {
-		rr.NewErr = err
-		return rr
+	// coercion.New runs start-up recovery before it returns; it is watched by the stall rule like everything else
+	// ("constructing a new Workstream on the same storage resumes every plan ... without hanging")
+	type newRes struct {
+		ws  *coercion.Workstream
+		err error
 	}
+	newCh := make(chan newRes, 1)
+	go func() {
+		ws, err := coercion.New(ctx, reg, rec, o.WSOptions...)
+		newCh <- newRes{ws, err}
+	}()
+	var ws *coercion.Workstream
+	newTick := time.NewTicker(time.Millisecond)
+waitNew:
+	for {
+		select {
+		case r := <-newCh:
+			if r.err != nil {
+				newTick.Stop()
+				rr.NewErr = r.err
+				return rr
+			}
+			ws = r.ws
+			break waitNew
+		case <-newTick.C:
+			if since, busy := l.quiet(); !busy && since >= o.StallWindow {
+				newTick.Stop()
+				l.note("coercion.New did not return: no progress for %v (harness-observed) with nothing pending", since)
+				rr.NewHung, rr.Stalled = true, true
+				for _, pr := range rr.Plans {
+					pr.Stalled = true
+				}
+				rr.Events = l.snapshotEvents()
+				rr.Notes = append([]string(nil), l.notes...)
+				return rr
+			}
+		}
+	}
+	newTick.Stop()
 	rr.WS = ws
 
 	if !o.Recover {
